@@ -21,24 +21,25 @@ Definition pm_named (q : pm_query) (tys : list pm_type) : list pm_key :=
     (match pm_q_single q t with Some n => [(t, n)] | None => [] end)
     ++ (match pm_q_plural q t with Some ns => map (pair t) ns | None => [] end)) tys.
 
-Definition pm_key_allowed (u : list pm_entry) (perm : pm_str) (inv : list pm_obj) (k : pm_key) : bool :=
+Definition pm_key_allowed (G : pm_env) (u : list pm_entry) (perm : pm_str) (inv : list pm_obj) (k : pm_key) : bool :=
   match pm_lookup inv (fst k) (snd k) with
-  | Some o => pm_spec_allow u perm o
+  | Some o => pm_spec_allow G u perm o
   | None => false
   end.
 
-Definition pm_key_forbidden (u : list pm_entry) (perm : pm_str) (inv : list pm_obj) (k : pm_key) : bool :=
+Definition pm_key_forbidden (G : pm_env) (u : list pm_entry) (perm : pm_str) (inv : list pm_obj) (k : pm_key) : bool :=
   match pm_lookup inv (fst k) (snd k) with
-  | Some o => negb (pm_spec_allow u perm o)
+  | Some o => negb (pm_spec_allow G u perm o)
   | None => false
   end.
 
 (* The statement of C18 over one observed call:
    1. HasPermission answers exactly "some entry matches (lower-cased, wildcards)";
    2. without a matching entry: an error, and no object was consulted;
-   3. every returned object exists and is permitted (an entry matches whose filter, if any, is true);
+   3. every returned object exists and is permitted: an entry matches whose filter, if any, is true of the object
+      ALONE under the global constants G - the request's filter_vars are no argument of pm_spec_allow;
    4. if a forbidden object was addressed by name the call did not return objects. *)
-Definition pm_oracle_q (u : list pm_entry) (perm : pm_str) (tys : list pm_type) (q : pm_query)
+Definition pm_oracle_q (G : pm_env) (u : list pm_entry) (perm : pm_str) (tys : list pm_type) (q : pm_query)
            (inv : list pm_obj) (ob : pm_obsv) : bool :=
   match perm with
   | [] => true
@@ -49,29 +50,34 @@ Definition pm_oracle_q (u : list pm_entry) (perm : pm_str) (tys : list pm_type) 
       && match pv_res ob with
          | None => true
          | Some keys =>
-             forallb (pm_key_allowed u perm inv) keys
-             && negb (existsb (pm_key_forbidden u perm inv) (pm_named q tys))
+             forallb (pm_key_allowed G u perm inv) keys
+             && negb (existsb (pm_key_forbidden G u perm inv) (pm_named q tys))
          end
   end.
 
 (* HasPermission + the objects its combined filter allows *)
-Definition pm_oracle_perm (u : list pm_entry) (perm : pm_str) (inv : list pm_obj) (has : bool)
+Definition pm_oracle_perm (G : pm_env) (u : list pm_entry) (perm : pm_str) (inv : list pm_obj) (has : bool)
            (allowed : list pm_key) : bool :=
   match perm with
   | [] => true
-  | _ :: _ => Bool.eqb has (pm_spec_has u perm) && forallb (pm_key_allowed u perm inv) allowed
+  | _ :: _ => Bool.eqb has (pm_spec_has u perm) && forallb (pm_key_allowed G u perm inv) allowed
   end.
 
-(* joined objects that were serialised *)
-Definition pm_oracle_joins (u : list pm_entry) (inv : list pm_obj) (joined : list pm_key) : bool :=
-  forallb (fun k => pm_key_allowed u (pm_query_perm (fst k)) inv k) joined.
+(* joined objects that were serialised, as (type, name): each must be permitted under objects/query/<ITS type> *)
+Definition pm_jkey_allowed (G : pm_env) (u : list pm_entry) (inv : list pm_obj) (k : pm_jkey) : bool :=
+  match fst k with
+  | PmJHost => match pm_lookup inv PmHost (snd k) with Some o => pm_spec_allow_j G u (PmJH o) | None => false end
+  | t => pm_spec_allow_j G u (PmJA t (snd k))
+  end.
+Definition pm_oracle_joins (G : pm_env) (u : list pm_entry) (inv : list pm_obj) (joined : list pm_jkey) : bool :=
+  forallb (pm_jkey_allowed G u inv) joined.
 
 (* what the model says about HasPermission's filter over an inventory: allowed keys and keys whose
    evaluation throws *)
-Definition pm_allows (u : list pm_entry) (perm : pm_str) (inv : list pm_obj) : list (pm_key * bool) :=
+Definition pm_allows (G : pm_env) (u : list pm_entry) (perm : pm_str) (inv : list pm_obj) : list (pm_key * bool) :=
   let '(found, pf) := pm_has_permission u perm in
   if found then
-    flat_map (fun o => match pm_eval_opt pf o with
+    flat_map (fun o => match pm_eval_opt G pf o with
                        | PmT => [(pm_key_of o, false)]
                        | PmE => [(pm_key_of o, true)]
                        | PmF => []
